@@ -18,6 +18,9 @@ Definition as_list (v : val) : option (list N) :=
 Definition ropt (r : res (option (list N))) : res val :=
   rmap (fun o => match o with Some l => VL [VB l] | None => VL [] end) r.
 
+Definition opt_text (v : val) : option (option (list N)) :=
+  match v with VL [] => Some None | VL [VB c] => Some (Some c) | _ => None end.
+
 Definition api (ask : string -> list val -> val) : list api_entry := [
   ("xmr_encode", fun a => match a with [VB b] => rb (xmr_encode b) | _ => bad_call end);
   ("xmr_decode", fun a => match a with [VB s] => rb (xmr_decode s) | _ => bad_call end);
@@ -44,5 +47,12 @@ Definition api (ask : string -> list val -> val) : list api_entry := [
   ("convert_bits", fun a => match a with [v; VN fb; VN tb; VN pad] =>
       match as_list v with
       | Some l => ropt (ConvertBits.convert_bits fb tb l (negb (N.eqb pad 0)))
-      | None => bad_call end | _ => bad_call end)
+      | None => bad_call end | _ => bad_call end);
+  (* Base32; custom alphabet: ( ) = None, ( text ) = Some *)
+  ("b32_encode", fun a => match a with [VB b; c] =>
+      match opt_text c with Some c => rb (b32_encode b c) | None => bad_call end | _ => bad_call end);
+  ("b32_encode_nopad", fun a => match a with [VB b; c] =>
+      match opt_text c with Some c => rb (b32_encode_no_padding b c) | None => bad_call end | _ => bad_call end);
+  ("b32_decode", fun a => match a with [VB s; c] =>
+      match opt_text c with Some c => rb (b32_decode s c) | None => bad_call end | _ => bad_call end)
 ].
